@@ -289,12 +289,19 @@ func (s *EtcdStore) ListConsumerGroups(ctx context.Context) ([]*metadatapb.Consu
 	s.recordEtcdResult(nil)
 	groups := make([]*metadatapb.ConsumerGroup, 0, len(resp.Kvs))
 	for _, kv := range resp.Kvs {
-		if _, ok := ParseConsumerGroupID(string(kv.Key)); !ok {
+		key := string(kv.Key)
+		if !strings.HasSuffix(key, "/metadata") {
 			continue
 		}
 		group, err := DecodeConsumerGroup(kv.Value)
 		if err != nil {
 			return nil, err
+		}
+		// Group ids are free-form and may contain '/', so the id cannot be cut
+		// out of the key reliably. The record carries it: a group metadata key is
+		// the one its own group id maps to.
+		if ConsumerGroupKey(group.GetGroupId()) != key {
+			continue
 		}
 		groups = append(groups, group)
 	}
